@@ -215,6 +215,38 @@ func before(a, b ssa.Instruction) bool {
 
 // threeWayRule: whoever stores a pair also indexes its contract and all of its denominations under the pair's id.
 func threeWayRule(c *Check, rule, fnSpec string, wantAddr func(p string) []string) {
+	// the id hashes ERC20Address and Denoms[0]: no store to either field may follow a GetID() of the function
+	// (the record would be keyed by another id than the one its index entries carry)
+	{
+		fn0 := c.F(fnSpec)
+		var idCalls []ssa.Instruction
+		for _, cs := range c.Calls(fn0, "aggregate/types.(TokenPair).GetID") {
+			idCalls = append(idCalls, cs.Ins)
+		}
+		for _, b := range fn0.Blocks {
+			for _, ins := range b.Instrs {
+				st, ok := ins.(*ssa.Store)
+				if !ok {
+					continue
+				}
+				fa, ok := st.Addr.(*ssa.FieldAddr)
+				if !ok || !strings.HasSuffix(typeStr(fa.X.Type()), "aggregate/types.TokenPair") {
+					continue
+				}
+				name := derefStruct(fa.X.Type()).Field(fa.Field).Name()
+				if name != "ERC20Address" && name != "Denoms" {
+					continue
+				}
+				okOrder := true
+				for _, ic := range idCalls {
+					if before(ic, st) {
+						okOrder = false
+					}
+				}
+				c.Req(okOrder, rule, funcName(fn0)+"/"+name+" not rewritten after the id was taken", st.Pos(), "", "pair."+name+" is assigned after pair.GetID() was evaluated: the stored record and its index entries end up under different ids")
+			}
+		}
+	}
 	fn := c.F(fnSpec)
 	sets := c.Calls(fn, "keeper.(Keeper).SetTokenPair")
 	if !c.Req(len(sets) == 1, rule, funcName(fn)+"/SetTokenPair", fn.Pos(), "1 site", fmt.Sprintf("%d SetTokenPair sites", len(sets))) {
